@@ -431,6 +431,22 @@ pub fn run_c15(out: &mut Out, tier: &str, _seed: u64) {
             }
         }
     }
+    // large regions (16 pages and more, where an allocator might treat pages differently): shorter histories
+    for len in [15 * PAGE + 1, 16 * PAGE, 16 * PAGE + 1, 73 * PAGE + 17, if thorough { 1025 * PAGE + 3 } else { 200 * PAGE }] {
+        for ops in sequences(2, true, true, true).iter() {
+            let run = run_sequence(0, len, ops, 0);
+            out.search_evaluations += 1;
+            let rp = json!({"op":"protected.release-history","container":"HeapBytes","len":len,"ops":seq_names(ops)});
+            if run.signal != 0 { out.hit("protected.sequence-crashes", format!("signal {} length {}", run.signal, len), rp.clone()); continue; }
+            for (k, tail) in run.release_tails.iter().enumerate() {
+                if *tail >= 8 { out.hit("protected.released-unwiped.beyond-reported-size", format!("a region released as {} bytes still holds {} bytes of its contents beyond that size (initial length {})", run.releases[k].0, tail, len), rp.clone()); }
+            }
+            for (size, nz) in run.releases.iter() {
+                if *nz > 0 { out.hit("protected.released-unwiped.large-region", format!("a region of {} bytes reached the allocator with {} non-zero bytes (initial length {})", size, nz, len), rp.clone()); }
+                if *nz < 0 { out.hit("protected.released-while-protected", format!("a region of {} bytes was released while unreadable", size), rp.clone()); }
+            }
+        }
+    }
     for nn in [16usize, 4096, 4097] {
         for ops in sequences(depth.min(3), false, false, true).iter() {
             let run = run_sequence(nn, nn, ops, 0);
